@@ -96,9 +96,14 @@ type faultWF struct {
 
 func (f *FaultFS) TempFile(dir, prefix string) (files.WritableFile, error) {
 	var wf files.WritableFile
-	err := f.call("tempfile", dir+"/"+prefix, true, func() (e error) { wf, e = f.inner.TempFile(dir, prefix); return })
+	created := false
+	err := f.call("tempfile", dir+"/"+prefix, true, func() (e error) {
+		wf, e = f.inner.TempFile(dir, prefix)
+		created = e == nil // on failure wf may hold a typed nil (*os.File)(nil)
+		return
+	})
 	if err != nil {
-		if wf != nil {
+		if created {
 			wf.Close()
 			f.inner.Remove(wf.Name())
 		}
